@@ -279,6 +279,9 @@ def _check_text(text, signed, stats):
 
     try:
         m = pgpy.PGPMessage.new(text, cleartext=True)
+        if len(text) % 2:
+            # every other text: the unsigned message is looked at first (written out, its text and kind read) - which must leave no trace
+            str(m), m.message, m.type, list(m.signatures), m.is_signed
         if signed:
             sig = K['key'].sign(m)
             sigbytes = bytes(sig)
